@@ -510,6 +510,66 @@ Proof.
   apply transact_ev; [exact Hev4|apply push_patches_keeps].
 Qed.
 
+(* ---- squash ---- *)
+
+Lemma new_unapplied_keeps : forall n o pos, keeps (new_unapplied n o pos).
+Proof. intros n o pos objs t E. unfold new_unapplied. repeat brk; fin E. Qed.
+
+Lemma try_squash_objs : forall objs t ps meta msg t1 o,
+  plain_extends objs (t_objs t) -> try_squash t ps meta msg = Some (t1, o) ->
+  plain_extends objs (t_objs t1).
+Proof.
+  intros objs t ps meta msg t1 o E H. unfold try_squash in H.
+  destruct ps as [|b rest]; [discriminate|].
+  destruct (t_patch t b) as [bc|]; [|discriminate].
+  destruct (squash_tree (t_objs t) t rest (tree_of (t_objs t) bc)) as [tr|]; [|discriminate].
+  unfold put in H. inversion H; subst. cbn [t_objs set_objs].
+  eapply ext_by_trans; [exact E|apply ext_by_put; reflexivity].
+Qed.
+
+Lemma squash_finish_keeps : forall newn o to_push sp, keeps (squash_finish newn o to_push sp).
+Proof.
+  intros newn o to_push sp objs t E. unfold squash_finish.
+  apply texts_tbind; [now apply new_unapplied_keeps|apply push_patches_keeps].
+Qed.
+
+Lemma squash_closure_keeps : forall ps newn meta msg sp, keeps (squash_closure ps newn meta msg sp).
+Proof.
+  intros ps newn meta msg sp objs t E. unfold squash_closure.
+  destruct (try_squash t ps meta msg) as [[t1 o]|] eqn:Et.
+  - apply (try_squash_objs objs) in Et; [|exact E].
+    destruct (delete_patches _ t1) as [t2 tp] eqn:DP. apply objs_delete_patches in DP.
+    apply squash_finish_keeps. now rewrite DP.
+  - destruct (pop_patches _ t) as [t1 tp] eqn:PP. apply objs_pop_patches in PP.
+    apply texts_tbind; [apply push_patches_keeps; now rewrite PP|].
+    intros objs2 t2 E2. cbv beta.
+    destruct (try_squash t2 ps meta msg) as [[t3 o]|] eqn:Et2; [|exact E2].
+    apply (try_squash_objs objs2) in Et2; [|exact E2].
+    destruct (delete_patches _ t3) as [t4 extra] eqn:DP. apply objs_delete_patches in DP.
+    destruct extra; [|exact I]. apply squash_finish_keeps. now rewrite DP.
+Qed.
+
+Lemma squash_exit_fst_ev : forall (p : world * exitc) (b : bool),
+  fst (let '(w', x) := p in if b then (w', X3) else (w', x)) = fst p.
+Proof. intros [w' x] b. destruct b; reflexivity. Qed.
+
+Lemma run_squash_ev : forall w r nm meta msg, EV false w (fst (run_squash w r nm meta msg)).
+Proof.
+  intros. unfold run_squash.
+  destruct (parse_ranges r) as [prs|]; [|apply EV_refl].
+  destruct (from_str nm) as [newn|]; [|apply EV_refl].
+  open_manual op Hop Hev.
+  destruct (w_unmerged _); [exact Hev|].
+  destruct (negb _); [exact Hev|].
+  unfold rres_bind.
+  match goal with |- EV false _ (fst (match ?r with ROk _ => _ | RErr _ => _ | RPanic => _ end)) =>
+    destruct r as [ps| |]; [|exact Hev|exact Hev] end.
+  destruct (_ && _); [exact Hev|].
+  destruct (Nat.ltb _ _); [exact Hev|].
+  rewrite squash_exit_fst_ev.
+  apply transact_ev; [exact Hev|apply squash_closure_keeps].
+Qed.
+
 Lemma step_ev_noclear : forall lower_s w c, c <> CLogClear -> EV false w (fst (step lower_s w c)).
 Proof.
   intros lower_s w c NC. destruct c; cbn [step].
@@ -537,6 +597,7 @@ Proof.
   - congruence.
   - apply run_edit_ev.
   - apply run_rebase_ev.
+  - apply run_squash_ev.
   - destruct (open_stack PAllow w) as [op|] eqn:Hop; [|apply EV_refl].
     eapply open_stack_ev; [exact Hop|discriminate].
   - apply run_git_ev.
